@@ -90,11 +90,14 @@ let check_c04 (case : Sexp.t) (res : Sexp.t) : [ `Ok | `Mismatch of string | `Pr
      | Accepted a ->
        (match a.ev with
         | `Value v ->
-          if not (shape_ok a.ty v) then (`Property ("the value's former does not match the reported type" ^ d9_sig a.open_holes), true)
+          (* the recorded finding D9 (an unresolved hole met by `open` is replaced by a fresh cell) can strike
+             while checking or while evaluating *)
+          let sg = d9_sig (a.open_holes + a.open_holes_eval) in
+          if not (shape_ok a.ty v) then (`Property ("the value's former does not match the reported type" ^ sg), true)
           else (match validate v a.ty with
               | `Valid -> (`Ok, true)
               | `Fuel -> (`Ok, false)
-              | `Illtyped why -> (`Property ("the value does not have the program's reported type: " ^ why ^ d9_sig a.open_holes), true))
+              | `Illtyped why -> (`Property ("the value does not have the program's reported type: " ^ why ^ sg), true))
         | _ -> (`Ok, false)))
 
 let check_c05 (case : Sexp.t) (res : Sexp.t) : [ `Ok | `Mismatch of string | `Property of string ] * bool =
